@@ -45,7 +45,7 @@ func varyNames(h map[string][]string) (names map[string]bool, star bool) {
 // named in Vary copied from r1 (same presence, same value list), every other
 // header taken from alt.
 func deriveR2(r1, alt Req, vary map[string]bool) Req {
-	r2 := Req{Method: r1.Method}
+	r2 := Req{Method: r1.Method, Target: r1.Target, Proto: alt.Proto} // same method and URL (a cache keys on them), anything else may differ
 	for _, h := range r1.Hdr {
 		if vary[h.Key] {
 			r2.Hdr = append(r2.Hdr, h)
